@@ -181,6 +181,15 @@ def check_case(case: dict[str, Any], ctx: Any = None) -> list[str]:
         except Exception as e:
             if ctx is not None:
                 ctx.count(f"parse_raised:{type(e).__name__}")
+            if at != "no":
+                # the same input as a plain str/bytes value: the tree form must be answered the same way
+                try:
+                    with Fuel():
+                        list(itertools.islice(f.grammar.parse_forest(inp, start=f"<{start}>"), 2))
+                    msgs.append(f"input {inp!r} start <{start}>: handed over as a tree ({at}) the parse request raises "
+                                f"{type(e).__name__}: {str(e)[:100]}, as a plain value it is answered")
+                except BaseException:
+                    pass
             continue
         for t in trees:
             probs = sem.derives(t, start)
